@@ -37,12 +37,13 @@ def cases(tier, seed):
     out = [{"D": 2 if i % 5 else 3, "opt": opts[i % 3], "loss": ["smse", "normalized"][(i // 3) % 2]} for i in range(n)]
     # fixed histories: a pseudo-scalar / pseudo-vector type carried through normalisation (parameterisations that are
     # equivariant at initialisation only would be moved off it by the optimiser)
-    for j, f in enumerate(FIXED if tier == "thorough" else FIXED[:3]):
+    for j, f in enumerate(FIXED if tier == "thorough" else FIXED[:4]):
         out.append({"D": 2, "opt": opts[j % 3], "loss": "smse", "cfg": f})
     return out
 
 
 FIXED = [
+    {"cls": "ResNet", "D": 2, "equivariant": False, "kernel_size": 3, "group_average": True, "in_sig": [[[0, 0], 1], [[1, 0], 1]], "out_sig": [[[1, 0], 1]], "depth": 2, "num_blocks": 1, "num_conv": 1, "num_downsamples": 1, "activation": "gelu", "norm": False, "preact": False, "bias": "auto", "bank_ks": [0, 1, 2], "torus": [True, True], "N": [4, 4], "keep_depth": True},
     {"cls": "ResNet", "D": 2, "equivariant": True, "in_sig": [[[0, 0], 2], [[1, 0], 1]], "out_sig": [[[1, 0], 1], [[0, 0], 2]], "depth": 2, "num_blocks": 1, "num_conv": 1, "num_downsamples": 1, "activation": "gelu", "norm": False, "preact": False, "bias": "auto", "bank_ks": [0, 1, 2], "torus": [True, True], "N": [4, 4], "keep_depth": True},
     {"cls": "ResNet", "D": 2, "equivariant": True, "in_sig": [[[0, 1], 1], [[1, 0], 1]], "out_sig": [[[0, 1], 1]], "depth": 1, "num_blocks": 1, "num_conv": 1, "num_downsamples": 1, "activation": "gelu", "norm": True, "preact": True, "bias": "auto", "bank_ks": [0, 1, 2], "torus": [True, True], "N": [4, 4]},
     {"cls": "ConvBlock", "D": 2, "equivariant": True, "in_sig": [[[0, 1], 2], [[1, 1], 1]], "out_sig": [[[0, 1], 2], [[1, 1], 2]], "depth": 1, "num_blocks": 1, "num_conv": 1, "num_downsamples": 1, "activation": "relu", "norm": True, "preact": False, "bias": "mean", "bank_ks": [0, 1, 2], "torus": [False, False], "N": [4, 5]},
@@ -127,6 +128,7 @@ def run(case, ctx):
     if case.get("cfg"):
         cfg = dict(case["cfg"])
         cfg["stable"] = True
+    wrap_ga = bool(case.get("cfg", {}).get("group_average"))
     cfg["depth"] = cfg["depth"] if cfg.get("keep_depth") else 1
     cfg["num_blocks"] = 1
     if cfg["cls"] == "UNet":
@@ -150,11 +152,16 @@ def run(case, ctx):
             # every second history starts from the untouched initial parameters (what real training does); the others
             # from a perturbed point, so that the optimiser also moves parameters that start at special values
             model = mlgen.build_model(cfg, case["i"])
+            if wrap_ga:
+                # an equivariant model of the other kind: a conventional network made equivariant by group averaging
+                import ginjax.models as models
+
+                model = models.GroupAverage(model, [np.asarray(g) for g in rgroup.hyperoctahedral(D)], always_average=True)
             from_init = case["i"] % 2 == 0
             if not from_init:
                 model = mlgen.perturb(model, rng, 0.1)
             in_sig, out_sig = mlgen.sig_of(cfg["in_sig"]), mlgen.sig_of(cfg["out_sig"])
-            stable, reach_out, _ = mlgen.type_flow(cfg)
+            stable, reach_out, _ = mlgen.type_flow(cfg) if cfg.get("equivariant", True) else (True, [t for t, _ in out_sig], [])
             X = mlgen.random_multi(rng, in_sig, D, tuple(cfg["N"]), tuple(cfg["torus"]), lead=(L,))
             Y = mlgen.random_multi(rng, [(t, c) for t, c in out_sig if t in reach_out], D, tuple(cfg["N"]), tuple(cfg["torus"]), lead=(L,))
             lossf = ml.smse_loss if case["loss"] == "smse" else ml.normalized_smse_loss
@@ -183,7 +190,7 @@ def run(case, ctx):
             if not viols:
                 for attempt in range(3):
                     x = mlgen.random_multi(rng, in_sig, D, tuple(cfg["N"]), tuple(cfg["torus"]))
-                    res = c07.check_model(trained, cfg, x, G, rng)
+                    res = c07.check_model(trained, cfg, x, G, rng, shifts=not wrap_ga)  # (a group-averaged conventional net is not translation equivariant)
                     evals += 1 + res["n_events"] * len(G) + len(G)
                     if res["status"] in ("held", "violated"):
                         break
